@@ -160,8 +160,28 @@ def to_xml(d):
 # ----------------------------------------------------------------------------- wire helpers
 
 
+class NonFinite:
+  """a nan/inf produced by the implementation: equal to nothing (so every exact comparison reports it)"""
+
+  def __init__(self, x):
+    self.x = x
+
+  def __eq__(self, other):
+    return False
+
+  def __ne__(self, other):
+    return True
+
+  def __float__(self):
+    return float(self.x)
+
+  def __repr__(self):
+    return repr(self.x)
+
+
 def fr(x):
-  return Fraction(float(x))
+  x = float(x)
+  return Fraction(x) if np.isfinite(x) else NonFinite(x)
 
 
 def tok(x):
@@ -485,6 +505,9 @@ def spec_compare(sys_, mj, data, q, qd, u, tol=1e-9):
   if tau.shape != (mj.nv,):
     return tau, [f'to_tau returns shape {tau.shape}, expected ({mj.nv},)']
   qfrc, _ = mujoco_qfrc(mj, data, u, q, qd)
+  if not np.all(np.isfinite(tau)):
+    # a non-finite joint force for finite inputs is a failure of the property, not of the harness
+    return tau, [f'to_tau = {tau.tolist()} is not finite; MuJoCo qfrc_actuator = {qfrc.tolist()}']
   if not np.allclose(tau, qfrc, rtol=0, atol=tol):
     msgs.append(f'to_tau = {tau.tolist()} but MuJoCo qfrc_actuator = {qfrc.tolist()}')
   ps, _ = py_spec(mj, u, q, qd)
@@ -585,7 +608,7 @@ def run_systems(ctx, rng, n_sys, n_ctrl, st, with_lean=True, time_limit=None, de
           if code:
             Stats.bump(st.ctrl_br, code[0]); Stats.bump(st.force_br, code[1])
         real = e['tau']
-        if len(got) != real.shape[0] or any(g != fr(x) for g, x in zip(got, real)):
+        if len(got) != real.shape[0] or not np.all(np.isfinite(real)) or any(g != fr(x) for g, x in zip(got, real)):
           disagreements.append(dict(what='Act.toTau (model) differs from actuator.to_tau',
                                     lean=[float(g) for g in got], real=real.tolist(), **e['case']))
       else:
